@@ -352,6 +352,11 @@ def run(ctx):
     vplib.gen_consts(ctx)
     proofs_ok, detail = vplib.check_proofs(ctx)
     ctx.log("proofs:", proofs_ok, detail[:200])
+    if proofs_ok and not ctx.quick:
+        chk_ok, chk_log = vplib.coqchk(ctx)
+        ctx.log("coqchk:", chk_ok)
+        if not chk_ok:
+            proofs_ok, detail = False, "coqchk rejected the compiled development: " + chk_log[-800:]
     rng = ctx.rng
     e2e.build(ctx)
 
@@ -420,7 +425,17 @@ def run(ctx):
         for j, rq in enumerate(case["requests"]):
             exprs.append(coq_case(case, rq, claims, port))
             index.append((ci, j))
-    model = vplib.coq_eval(ctx, "From GPA Require Import Server.", exprs, shard=120, timeout=900)
+    model = None
+    for attempt in range(4):
+        try:
+            model = vplib.coq_eval(ctx, "From GPA Require Import Server.", exprs, shard=120, timeout=900)
+            break
+        except RuntimeError as ex:
+            # another check regenerated Generated/Consts.v (a changed translator) while we were evaluating
+            if "inconsistent assumptions" not in str(ex) or attempt == 3:
+                raise
+            vplib.gen_consts(ctx)
+            vplib.coq_make(ctx, ["Model/Server.vo"])
     ctx.log("model: %d requests evaluated" % len(model))
 
     # ---------------- compare (a) with (b); evaluate (c) on (a) ----------------
